@@ -64,6 +64,12 @@ CHECKS = {
    note="Stub packages are WIT packages defining the referenced interface/world names when the reference toolchain accepts them, else a small component; resolution usually stops at its first error, so the differential reaches the first few references of a document.",
    technique="property-based testing: generator-known expected set + metamorphic superset/subset resolution (proptest)",
    design="C17"),
+ "C18": dict(
+   category="exploration",
+   text="Exhaustive decision table over materialised directory trees: what exists at <deps>/ns/name[/version] (nothing / WIT dir / broken WIT dir / plain file), the .wasm candidate (absent / component / garbage), the .wat candidate (absent / text / bad text / binary), the --dep override (none / .wasm / .wat / .wit / dangling / for another package), key shapes with 2-3 name segments and versions with pre-release/build parts, both unknown-package modes, decoy files named with the version's last component replaced by the extension, and builds with and without the `wat` feature (second binary). Expected outcome from the documented layout; expected bytes from the file itself, the `wat` crate or wit-component.",
+   note="Exhaustive for the enumerated table (5760 rows quick, 11520 thorough). Reference encodings trusted: wat, wit-parser, wit-component.",
+   technique="property-based testing: exhaustive enumeration of a finite configuration table against a reference decision-table model",
+   design="C18"),
 }
 
 def main():
